@@ -6,7 +6,7 @@ CONSTANTS
   Orders <- OrdersAll
   Patterns <- PatternsAll
   MaxAsm = 3
-  Complex = {FALSE, TRUE}
+  Complex = {"real", "all", "tail"}
   Defect = "none"
   Emit = FALSE
 VIEW view
